@@ -632,7 +632,7 @@ class C01(Prop):
         xover = any(Fraction(v, den) < xo[j] for m in obs["draws"] for r in m for j, v in enumerate(r))
         g = case["geno"]
         nt = len(g[0])
-        het = any(len({v % nt for v in r}) > 1 or g[0][r[0]] != g[1][r[0]] for r in case["xconfig"])
+        het = any(len({v % nt for v in r}) > 1 or g[0][r[0] % nt] != g[1][r[0] % nt] for r in case["xconfig"])
         return xover and het
 
     def _judge_util(self, case, obs, m):
